@@ -34,6 +34,17 @@ def run(ctx):
         for _ in range(800 if q else 20000):
             f = rand_formula(rnd, lang, rnd.choice([3, 4, 5]), rnd.sample(ATOMS, 3))
             cases.append({'op': 'roundtrip', 'lang': lang, 'f': f, 'style': 'obj'})
+    # wide formulas: hundreds of operands under one and/or (small height, thousands of tokens and parentheses)
+    for lang in ('PL', 'LTL', 'CTL', 'CTLS'):
+        for _ in range(3 if q else 20):
+            unit = {'PL': lambda a, b: ('and', ('not', ('ap', a)), ('or', ('ap', b), ('true',))),
+                    'LTL': lambda a, b: ('and', ('X', ('ap', a)), ('U', ('ap', b), ('not', ('ap', a)))),
+                    'CTL': lambda a, b: ('and', ('E', ('X', ('ap', a))), ('A', ('U', ('ap', b), ('not', ('ap', a))))),
+                    'CTLS': lambda a, b: ('and', ('X', ('ap', a)), ('E', ('U', ('ap', b), ('not', ('ap', a)))))}[lang]
+            k = rnd.randint(300, 700)
+            names = rnd.sample(ATOMS, 3)
+            f = (rnd.choice(['or', 'and']),) + tuple(unit(rnd.choice(names), rnd.choice(names)) for _ in range(k))
+            cases.append({'op': 'roundtrip', 'lang': lang, 'f': f, 'style': 'obj'})
     ctx.exhaustive = True
     keep = synfam.run_events(ctx, cases)
     # injectivity of printing on the code: equal strings must come from equal trees
